@@ -32,7 +32,7 @@ func recipeOptions(r *rand.Rand, rc *recipe) (engine.Options, int) {
 // specialGame returns a game (start + moves) ending in a named kind of position.
 func specialGame(r *rand.Rand, kind int) (ref.Pos, []ref.Move, string) {
 	starts := gen.Starts()
-	switch kind % 9 {
+	switch kind % 10 {
 	case 0:
 		if h, ok := terminalRoot(r, true); ok {
 			return h.Start, h.Moves, "mate"
@@ -78,6 +78,64 @@ func specialGame(r *rand.Rand, kind int) (ref.Pos, []ref.Move, string) {
 		p := starts[r.Intn(len(starts))]
 		h := gen.Playout(r, p, r.Intn(30), gen.Biases[r.Intn(len(gen.Biases))])
 		return h.Start, h.Moves, "fen+moves"
+	case 9: // the position has occurred five times (or more): both sides shuttle a piece out and back
+		for try := 0; try < 40; try++ {
+			h := gen.Playout(r, starts[r.Intn(len(starts))], r.Intn(12), gen.Neutral)
+			g := ref.NewGameFrom(h.Start, h.Moves)
+			reverse := func(m ref.Move) (ref.Move, bool) {
+				for _, x := range g.Cur.LegalMoves() {
+					if x.From == m.To && x.To == m.From && x.Capture == 0 {
+						return x, true
+					}
+				}
+				return ref.Move{}, false
+			}
+			quiet := func() (ref.Move, bool) {
+				ms := g.Cur.LegalMoves()
+				for _, i := range r.Perm(len(ms)) {
+					if m := ms[i]; m.Capture == 0 && m.Piece != ref.Pawn && m.Kind == ref.KNormal {
+						return m, true
+					}
+				}
+				return ref.Move{}, false
+			}
+			m1, ok1 := quiet()
+			if !ok1 {
+				continue
+			}
+			g.Push(m1)
+			m2, ok2 := quiet()
+			if !ok2 {
+				continue
+			}
+			g.Push(m2)
+			b1, ok3 := reverse(m1)
+			if !ok3 {
+				continue
+			}
+			g.Push(b1)
+			b2, ok4 := reverse(m2)
+			if !ok4 {
+				continue
+			}
+			ev := g.Push(b2)
+			cycle := []ref.Move{m1, m2, b1, b2}
+			for n := 0; n < 24 && ev.Count < 5 && ev.Clock < 100; n++ {
+				ev = g.Push(cycle[n%4])
+			}
+			if ev.Count < 5 || len(g.Cur.LegalMoves()) == 0 {
+				continue
+			}
+			for k := r.Intn(3); k > 0; k-- { // sometimes the game goes on after the five-fold
+				if ms := g.Cur.LegalMoves(); len(ms) > 0 {
+					g.Push(ms[r.Intn(len(ms))])
+				}
+			}
+			if len(g.Cur.LegalMoves()) == 0 {
+				continue
+			}
+			return g.Start, g.Moves, "fivefold"
+		}
 	case 7:
 		if r.Intn(2) == 0 {
 			if p, ok := gen.BoxedKing(r); ok {
@@ -139,7 +197,7 @@ func c04Session(c *fw.Ctx, r *rand.Rand, idx int) {
 	for step := 0; step < steps; step++ {
 		// position: fresh, or a continuation of the previous game
 		if step == 0 || r.Intn(3) != 0 || len(ref.NewGameFrom(start, moves).Cur.LegalMoves()) == 0 {
-			start, moves, tag = specialGame(r, r.Intn(9)+idx)
+			start, moves, tag = specialGame(r, r.Intn(10)+idx)
 			if r.Intn(4) == 0 {
 				s.send("ucinewgame")
 			}
@@ -180,7 +238,7 @@ func c04Session(c *fw.Ctx, r *rand.Rand, idx int) {
 			var cmd string
 			selfEnding := true
 			delay := time.Duration(r.Intn(12)) * time.Millisecond
-			variant := r.Intn(8)
+			variant := r.Intn(9)
 			switch variant {
 			case 0, 1:
 				cmd = fmt.Sprintf("go depth %d", 1+r.Intn(maxDepth))
@@ -193,6 +251,19 @@ func c04Session(c *fw.Ctx, r *rand.Rand, idx int) {
 				}
 				if r.Intn(3) == 0 {
 					cmd += " winc 10 binc 10"
+				}
+			case 8:
+				// used-up, overdrawn and one-sided clocks: the go is still owed its bestmove
+				odd := []int{0, 0, -1, -150, 1, 2, 30000}
+				switch r.Intn(4) {
+				case 0:
+					cmd = fmt.Sprintf("go wtime %d btime %d", odd[r.Intn(len(odd))], odd[r.Intn(len(odd))])
+				case 1:
+					cmd = fmt.Sprintf("go wtime %d", 20+r.Intn(100)) // only White's clock given
+				case 2:
+					cmd = fmt.Sprintf("go btime %d", 20+r.Intn(100)) // only Black's clock given
+				default:
+					cmd = fmt.Sprintf("go wtime %d btime %d movestogo %d", odd[r.Intn(len(odd))], odd[r.Intn(len(odd))], r.Intn(3))
 				}
 			case 4:
 				cmd, selfEnding = "go infinite", false
@@ -281,7 +352,7 @@ func init() {
 		Level:       "exploration",
 		Race:        true,
 		Technique:   "runtime protocol monitor: recorded UCI sessions (driver driven in-process through its channels, race detector on) checked for exactly-once bestmove per go, legality against the rules oracle, and no late duplicates",
-		Rule:        "one evaluation = one go exchange: the go is sent, left to end by itself (depth / movetime / clock) or stopped (infinite, bare go on an unlimited engine), then closed by an isready/readyok round trip; bestmove lines between the go and that readyok are counted (exactly 1) and checked against the oracle's legal moves of the position last set up (0000 only without legal move); later bestmoves are late duplicates; sessions = 4 engine recipes x options (hash 0/1/4 MB, noise, depth, own book on/off) x positions (startpos/FEN + moves, continuation, mate, stalemate, claimable threefold, clock >= 100, insufficient material, single legal move) x 8 go variants incl. repeated go and the stale-movetime-timer scenario; distinct = distinct session transcripts",
+		Rule:        "one evaluation = one go exchange: the go is sent, left to end by itself (depth / movetime / clock) or stopped (infinite, bare go on an unlimited engine), then closed by an isready/readyok round trip; bestmove lines between the go and that readyok are counted (exactly 1) and checked against the oracle's legal moves of the position last set up (0000 only without legal move); later bestmoves are late duplicates; sessions = 4 engine recipes x options (hash 0/1/4 MB, noise, depth, own book on/off) x positions (startpos/FEN + moves, continuation, mate, stalemate, claimable threefold, clock >= 100, insufficient material, single legal move, five-fold repetition with and without further moves) x 9 go variants (incl. used-up, negative and one-sided clocks) incl. repeated go and the stale-movetime-timer scenario; distinct = distinct session transcripts",
 		Assumptions: []string{"a go the script does not stop is given 60 s before it is stopped by the monitor; the answer is then still owed (decided on the stop/readyok events, not on the time)"},
 		Setup:       validateOracle,
 		Timeout:     minutes(15, 120),
@@ -289,7 +360,7 @@ func init() {
 			return mkCases(nil, "sessions", 64, seed, pick(tier, 4, 80))
 		},
 		Floors: func(string) map[string]int64 {
-			return map[string]int64{"sessions": 150, "gos": 800, "pos_mate": 5, "pos_stalemate": 5, "pos_claimable-threefold": 5, "pos_clock>=100": 5, "pos_single-legal-move": 3, "pos_continuation": 50, "stale_timer_scenarios": 20, "null_moves_expected": 5}
+			return map[string]int64{"sessions": 150, "gos": 800, "pos_mate": 5, "pos_stalemate": 5, "pos_claimable-threefold": 5, "pos_clock>=100": 5, "pos_single-legal-move": 3, "pos_fivefold": 5, "go_variant_8": 40, "pos_continuation": 50, "stale_timer_scenarios": 20, "null_moves_expected": 5}
 		},
 		Run: func(c *fw.Ctx, cs fw.Case) {
 			r := cs.Rand()
